@@ -96,10 +96,42 @@ def main(ctx):
     wcases = [{"case": "w%d_%d" % cm, "c": cm[0], "m": cm[1]} for cm in WINDMILLS]
     wrecs = ctx.run_cases("props.c03.run_wind_case", wcases, jobs=2)
     ctx.validate("Val_C03w", "Val_C03w", wrecs, stage="Val_C03w", nontrivial=lambda r: r["c"] * r["m"] > 127)
+    # large trees (chains, stars): path-based and random-walk measures against closed forms
+    trecs = ctx.run_cases("props.c03.run_tree_case", tree_cases(ctx.tier), jobs=2)
+    ctx.validate("Val_C03t", "Val_C03t", trecs, stage="Val_C03t", nontrivial=lambda r: r["N"] > 127)
+
+
+def run_tree_case(c):
+    """Chains and stars of up to 300 nodes: path-based and random-walk measures against closed forms."""
+    from pyunicorn.core import Network
+    N = c["N"]
+    a, b = np.indices((N, N))
+    A = (np.abs(a - b) == 1) if c["kind"] == "chain" else (((a == 0) | (b == 0)) & (a != b))
+    rec = dict(c)
+    o = {"exc": ""}
+    try:
+        net = Network(A.astype(int), silence_level=3)
+        o["betweenness"] = enc.arr(net.betweenness(), 100)
+        o["closeness"] = enc.arr(net.closeness())
+        o["newman"] = enc.arr(net.newman_betweenness())
+    except Exception as ex:
+        o["exc"] = type(ex).__name__
+    rec["obs"] = o
+    return rec
+
+
+def tree_cases(tier):
+    sizes = {"chain": (5, 150), "star": (4, 257)} if tier == "quick" else {
+        "chain": (3, 4, 5, 6, 129, 150, 300), "star": (3, 4, 5, 6, 129, 257, 300)}
+    return [{"case": "t_%s%d" % (k, N), "blk": "tree", "kind": k, "N": N} for k in sizes for N in sizes[k]]
 
 
 def replay(ctx, rep):
     rec = rep["record"]
+    if rec.get("blk") == "tree":
+        trecs = ctx.run_cases("props.c03.run_tree_case", [{k: v for k, v in rec.items() if k != "obs"}], jobs=1)
+        ctx.validate("Val_C03t", "Val_C03t", trecs, stage="Val_C03t", nontrivial=lambda r: True)
+        return
     if rec["case"].startswith("w") and "c" in rec:
         wrecs = ctx.run_cases("props.c03.run_wind_case", [{k: rec[k] for k in ("case", "c", "m")}], jobs=1)
         ctx.validate("Val_C03w", "Val_C03w", wrecs, stage="Val_C03w")
